@@ -60,9 +60,14 @@ def _names(lst):
 def equivalent(A, B):
     """A = lambda * B for a unit complex lambda  <=>  A B^dagger is a scalar matrix s*I with |s| = 1 (A, B unitary);
     decided exactly.  Returns the scalar or None."""
-    W = q8.mm(A, q8.dagger(B))
-    if W[0, 1] == ZERO and W[1, 0] == ZERO and W[0, 0] == W[1, 1] and W[0, 0].abs2() == ONE:
-        return W[0, 0]
+    def w(i, j):  # (A B^dagger)[i, j]
+        return A[i, 0] * B[j, 0].conjugate() + A[i, 1] * B[j, 1].conjugate()
+
+    if w(0, 1) != ZERO or w(1, 0) != ZERO:
+        return None
+    s = w(0, 0)
+    if s == w(1, 1) and s.abs2() == ONE:
+        return s
     return None
 
 
@@ -79,10 +84,10 @@ def first_nonzero(A):
     return None
 
 
-def ceu_exact(U1, U2):
+def ceu_exact(U1, U2, known_unitary=False):
     """graphiq's check_equivalent_unitaries with np.allclose read as exact equality; returns (verdict, separation) where
     separation is the exact largest quantity (squared) by which a failing comparison misses (None if verdict is True)"""
-    if not (is_unitary_exact(U1) and is_unitary_exact(U2)):
+    if not known_unitary and not (is_unitary_exact(U1) and is_unitary_exact(U2)):
         return False, None
     r, c = first_nonzero(U2)
     gp = U1[r, c] / U2[r, c]
@@ -131,10 +136,21 @@ class Ctx:
         self.float_lib = [np.asarray(m) for m in ops.local_cliffords_name_to_matrix_map()]
         self.exact_lib = None
         self.exact_lib_by_list = None
+        self.aligned = None
         if all(g is not None for g in self.gens.values()):
             with exact_generators(self.gens):
                 self.exact_lib = [as_q8(m) for m in ops.local_cliffords_name_to_matrix_map()]
                 self.exact_lib_by_list = [as_q8(ops.local_clifford_to_matrix_map(l)) for l in self.lists]
+            # the two enumerations (lists / matrices) need not come in the same order: align matrices to lists
+            keys = [q8.key(m) for m in self.exact_lib]
+            perm = []
+            for m in self.exact_lib_by_list:
+                k = q8.key(m)
+                perm.append(keys.index(k) if k in keys else None)
+            self.aligned = None not in perm and sorted(perm) == list(range(len(keys))) and len(keys) == len(self.lists)
+            if self.aligned:
+                self.exact_lib = [self.exact_lib[j] for j in perm]
+                self.float_lib = [self.float_lib[j] for j in perm]
         self._g192 = None
 
     def g192(self):
@@ -205,8 +221,11 @@ def obligations(tier="quick"):
         expect = [list(x) + list(y) for x, y in itertools.product(a, b)]
         if len(cx.lists) != 24:
             bad.append(f"one_qubit_cliffords yields {len(cx.lists)} lists")
-        if cx.lists != expect:
-            bad.append("one_qubit_cliffords is not [x + y for x in a for y in b] in product order")
+        if sorted(map(_names, cx.lists)) != sorted(map(_names, expect)):
+            bad.append("one_qubit_cliffords is not {x + y : x in a, y in b} (the lists find_local_clifford_by_matrix returns)")
+        if not cx.aligned:
+            bad.append("local_cliffords_name_to_matrix_map() is not a bijective image of one_qubit_cliffords() under "
+                       "local_clifford_to_matrix_map (exact)")
         if len({tuple(_names(l)) for l in cx.lists}) != len(cx.lists):
             bad.append("duplicate gate lists")
         for l in cx.lists:
@@ -218,7 +237,10 @@ def obligations(tier="quick"):
         return bad
 
     _run(out, "C20.F.enumeration.exactly-24-lists", enum_24, f"{OPS}:one_qubit_cliffords",
-         "the enumeration consists of exactly 24 distinct gate lists over {I,H,P,X,Y,Z}, a x b in product order")
+         "the enumeration consists of exactly 24 distinct gate lists over {I,H,P,X,Y,Z}: the set {x + y : x in a, y in b}; the "
+         "matrix enumeration is its bijective image (order of enumeration is not part of the property)")
+    if not cx.aligned:
+        return out
 
     def product_order():
         bad = []
@@ -265,9 +287,14 @@ def obligations(tier="quick"):
 
     def closed():
         bad = []
+        lib_keys = {}
+        for i, k, M in cx.g192():
+            lib_keys.setdefault(q8.key(M), i)
         for i, j in itertools.product(range(len(cx.exact_lib)), repeat=2):
             Pm = q8.mm(cx.exact_lib[i], cx.exact_lib[j])
-            hits = [k for k, E in enumerate(cx.exact_lib) if equivalent(Pm, E) is not None]
+            fast = lib_keys.get(q8.key(Pm))  # Pm == omega^k E_fast exactly; uniqueness: pairwise-inequivalent
+            hits = [fast] if fast is not None and equivalent(Pm, cx.exact_lib[fast]) is not None else \
+                [k for k, E in enumerate(cx.exact_lib) if equivalent(Pm, E) is not None]
             if len(hits) != 1:
                 bad.append([_names(cx.lists[i]), _names(cx.lists[j]), hits])
             else:
@@ -333,8 +360,11 @@ def obligations(tier="quick"):
         worst = None
         n_true = 0
         for i, k, U1 in cx.g192():
+            if not is_unitary_exact(U1):
+                bad.append([_names(cx.lists[i]), k, "not unitary"])
+                continue
             for j, U2 in enumerate(cx.exact_lib):
-                verdict, sep = ceu_exact(U1, U2)
+                verdict, sep = ceu_exact(U1, U2, known_unitary=True)  # library elements: unitary by members-are-cliffords
                 truth = equivalent(U1, U2) is not None
                 if verdict != truth:
                     bad.append([_names(cx.lists[i]), k, _names(cx.lists[j]), "pivot-based test != equivalence"])
@@ -395,8 +425,7 @@ def obligations(tier="quick"):
         for n, M in non.items():
             if dmf.is_unitary(M):
                 bad.append(f"is_unitary({n}) is True")
-            if dmf.check_equivalent_unitaries(M, np.eye(2)) or (M.shape == (2, 2) and dmf.check_equivalent_unitaries(np.eye(2), M)
-                                                               if n != "zero" else False):
+            if dmf.check_equivalent_unitaries(M, np.eye(2)) or dmf.check_equivalent_unitaries(np.eye(2), M):
                 bad.append(f"check_equivalent_unitaries accepts the non-unitary {n}")
         return bad
 
